@@ -108,6 +108,19 @@ func (e *env) mk(b base, kind, name, fault string, members []gen.ArMember, sigs 
 		Keyring: e.keyring(keys...), KeyringNames: keys, Orders: orders, Deb: gen.BuildAr(members)}
 }
 
+// askedFor: the roles requested for a package in which role r is present: r itself, every other real role, and
+// near-misses of r, all of which are absent.
+func askedFor(r string, all []string) []string {
+	out := append([]string{}, all...)
+	title := strings.ToUpper(r[:1]) + r[1:]
+	for _, a := range []string{r, "_gpg" + r, "gpg" + r, r + "x", r[:len(r)-1], strings.ToUpper(r), title, r + " ", " " + r, r + "\x00", "", "_gpg", r + r, r + "/"} {
+		if !has(out, a) {
+			out = append(out, a)
+		}
+	}
+	return out
+}
+
 // otherRings: besides the signer's own ring [K1] every tampering scenario is also run with the signer among others
 // (first / last), an unrelated ring, the empty non-nil list and the nil list.
 var otherRings = [][]string{{"K1", "K2"}, {"K2", "K1"}, {"K2"}, {}, {NilRing}}
@@ -321,7 +334,7 @@ func Run(r *mc.Run) {
 			}
 			for _, present := range allRoles {
 				sm, si := e.sigMember(present, "K1", b.signed())
-				for _, ask := range allRoles {
+				for _, ask := range askedFor(present, allRoles) {
 					for _, kr := range keyrings {
 						ins = append(ins, e.mk(b, "matrix", fmt.Sprintf("signed %s by K1 (sig %s), ask %s, keyring %v", present, pos, ask, kr), "", place(sm), []SigInfo{si}, ask, kr, false))
 					}
@@ -334,7 +347,7 @@ func Run(r *mc.Run) {
 			swO.Name, swM.Name = "_gpgmaint", "_gpgorigin"
 			xO, xM := siO, siM
 			xO.Role, xM.Role = "maint", "origin"
-			for _, ask := range allRoles {
+			for _, ask := range askedFor("origin", allRoles) {
 				for _, kr := range keyrings {
 					ins = append(ins, e.mk(b, "matrix", fmt.Sprintf("origin by K1 + maint by K2 (sig %s), ask %s, keyring %v", pos, ask, kr), "", place(smO, smM), []SigInfo{siO, siM}, ask, kr, false))
 					ins = append(ins, e.mk(b, "matrix", fmt.Sprintf("roles swapped: _gpgmaint holds K1's, _gpgorigin holds K2's signature (sig %s), ask %s, keyring %v", pos, ask, kr), "signature members renamed into each other", place(swO, swM), []SigInfo{xO, xM}, ask, kr, false))
@@ -342,7 +355,7 @@ func Run(r *mc.Run) {
 			}
 		}
 	}
-	e.scenario("role-keyring-matrix", map[string]interface{}{"bases": names(bases), "role_present": allRoles, "role_asked": allRoles, "keyrings": keyrings,
+	e.scenario("role-keyring-matrix", map[string]interface{}{"bases": names(bases), "role_present": allRoles, "role_asked": fmt.Sprintf("for a present role r: %q", askedFor("<r>", allRoles)), "keyrings": keyrings,
 		"signature_member_position": []string{"end", "after-debian-binary"}, "extra": "two-signature package and the same with the two signature members' names swapped"}, ins, 8)
 
 	// ---- scenario 1b: CALL SEQUENCES on one loaded Deb: all sequences of <= 3 CheckDebsig calls over
@@ -532,8 +545,10 @@ func Run(r *mc.Run) {
 		variants := func(stem string) []string { // stem = "control" | "data"
 			up := strings.ToUpper(stem[:1]) + stem[1:]
 			inv := strings.ToLower(stem[:1]) + strings.ToUpper(stem[1:])
-			return []string{up + ".tar", strings.ToUpper(stem) + ".TAR", strings.ToUpper(stem) + ".TAR.GZ", up + ".tar.gz", inv + ".tar", stem + ".TAR",
-				"./" + stem + ".tar", stem + ".tar/", stem + ".tar\x00", " " + stem + ".tar", stem + ".Tar.gz"}
+			// prefix-extension variants (the name goes on after the stem before ".tar") and names that merely END like the real ones
+			ext := []string{stem + "2.tar.gz", stem + "x.tar", stem + "-o.tar.gz", stem + "_1.tar", stem + "s.tar", stem + "base.tar", "x" + stem + ".tar", "my" + stem + ".tar.gz", stem + "2.tar"}
+			return append(ext, up+".tar", strings.ToUpper(stem)+".TAR", strings.ToUpper(stem)+".TAR.GZ", up+".tar.gz", inv+".tar", stem+".TAR",
+				"./"+stem+".tar", stem+".tar/", stem+".tar\x00", " "+stem+".tar", stem+".Tar.gz")
 		}
 		for _, stem := range []string{"control", "data"} {
 			raw := evil.ControlTar()
@@ -556,7 +571,11 @@ func Run(r *mc.Run) {
 				if !has(nameDecoys[stem], n) {
 					nameDecoys[stem] = append(nameDecoys[stem], n)
 				}
-				for _, pos := range []int{0, 2, len(full)} {
+				poss := []int{0, 2, len(full)}
+				if r.Quick() {
+					poss = []int{0, len(full)} // quick: before and after; thorough also between
+				}
+				for _, pos := range poss {
 					ins = append(ins, e.mk(b, "decoy", fmt.Sprintf("decoy %q (attacker's %s tar, %s) at position %d", n, stem, comp, pos),
 						fmt.Sprintf("inserted member %q holding the attacker's %s tar at position %d", n, stem, pos),
 						insertAt(full, pos, gen.ArMember{Name: n, Data: z}), []SigInfo{si}, "origin", []string{"K1"}, true))
@@ -565,7 +584,7 @@ func Run(r *mc.Run) {
 		}
 	}
 	c14.MapOrderBound = r.Pick(1, 2)
-	e.scenario("decoy-names", map[string]interface{}{"bases": names(bases[:2]), "names": nameDecoys, "positions": "before (0), between (2), after (end)",
+	e.scenario("decoy-names", map[string]interface{}{"bases": names(bases[:2]), "names": nameDecoys, "positions": "before (0), after (end); thorough also between (2)",
 		"content": "the attacker's control / data tar, stored or gzip according to the (lower-cased) suffix", "map_order_deviation_bound": c14.MapOrderBound, "orders": c14.MapOrderNote}, ins, 1)
 	c14.MapOrderBound = 2
 
@@ -629,9 +648,13 @@ func Run(r *mc.Run) {
 			}
 		}
 	}
-	ins = e.widen(ins, 5, [][]string{{"K2", "K1"}, {}, {NilRing}})
+	swapRings := [][]string{{NilRing}}
+	if !r.Quick() {
+		swapRings = [][]string{{"K2", "K1"}, {}, {NilRing}}
+	}
+	ins = e.widen(ins, 5, swapRings)
 	c14.MapOrderBound = r.Pick(1, 2)
-	e.scenario("swapped-members", map[string]interface{}{"keyrings": "[K1] for every variant; [K2 K1], the empty list and the nil list for position 0 of every (member, name)", "bases": names(bases[:2]), "kept_original_names": swapNames, "positions": "every member position 0..4",
+	e.scenario("swapped-members", map[string]interface{}{"keyrings": fmt.Sprintf("[K1] for every variant; %v for position 0 of every (member, name)", swapRings), "bases": names(bases[:2]), "kept_original_names": swapNames, "positions": "every member position 0..4",
 		"replacement":                "debian-binary -> \"2.0\\nevil\\n\"; control/data -> the attacker's tar in the same encoding; _gpgorigin -> K2's signature (keyring stays [K1])",
 		"names_longer_than_16_bytes": "dropped (ar name field)", "map_order_deviation_bound": c14.MapOrderBound, "orders": c14.MapOrderNote}, ins, 1)
 	c14.MapOrderBound = 2
